@@ -122,7 +122,7 @@ Proof. vm_compute. repeat split; reflexivity. Qed.
 (* ---------- an executable scheduler for the correspondence run (C15): API calls run to completion, goroutines run to
    quiescence after each one; what it predicts for a sequence of lifecycle calls and client arrivals is compared with
    what the real server shows ---------- *)
-Inductive lop := OStart | OStop | ORestart | OPlain | OTLS | ODisc.
+Inductive lop := OStart | OStop | ORestart | OPlain | OTLS | ODisc | OReject | OHsFail.
 Inductive lobs := ObsRet (ok : bool) | ObsReg (n : nat) | ObsSkip.
 
 Definition is_running (s : sys) : bool := match pc s with PRunning => true | _ => false end.
@@ -148,6 +148,16 @@ Definition life_op (st : sys * list nat) (o : lop) : (sys * list nat) * lobs :=
   | OTLS =>
     match is_running s, fld_tls s with
     | true, Some l => let id := next_id s in let s' := lrun s [LAcceptOk l; LAdmit id] in ((s', clients ++ [id]), ObsReg (length (registry s')))
+    | _, _ => (st, ObsSkip)
+    end
+  | OReject =>      (* a TLS client whose certificate the authenticators refuse: accepted, then released without registration *)
+    match is_running s, fld_tls s with
+    | true, Some l => let id := next_id s in let s' := lrun s [LAcceptOk l; LReject id] in ((s', clients), ObsReg (length (registry s')))
+    | _, _ => (st, ObsSkip)
+    end
+  | OHsFail =>      (* a client whose TLS handshake fails *)
+    match is_running s, fld_tls s with
+    | true, Some l => let id := next_id s in let s' := lrun s [LAcceptOk l; LHandshakeFail id] in ((s', clients), ObsReg (length (registry s')))
     | _, _ => (st, ObsSkip)
     end
   | ODisc =>
